@@ -26,6 +26,10 @@ type c03Fix struct {
 	conf, layer []byte
 	man         [2][]byte
 	dig         [2]string
+	// an index whose child descriptors carry org.opencontainers.image.ref.name annotations, as an exported layout
+	// has them: content of a manifest body, never a tag of this repository
+	idx    []byte
+	idxDig string
 }
 
 func c03Fixture() *c03Fix {
@@ -37,6 +41,12 @@ func c03Fixture() *c03Fix {
 	for i := range f.man {
 		f.dig[i] = h.Dig("sha256", f.man[i])
 	}
+	d1 := h.ManDesc(types.MediaTypeOCI1Manifest, f.man[0])
+	d1.Annotations = map[string]string{types.AnnotRefName: "a"}
+	d2 := h.ManDesc(types.MediaTypeOCI1Manifest, f.man[1])
+	d2.Annotations = map[string]string{types.AnnotRefName: "ghost"}
+	f.idx = h.Index(types.MediaTypeOCI1ManifestList, []h.Desc{d1, d2}, nil, "", nil)
+	f.idxDig = h.Dig("sha256", f.idx)
 	return f
 }
 
@@ -134,6 +144,31 @@ func c03Specs(tier string) []*h.SeqSpec {
 			sp.MaxDepth = 30
 		}
 		specs = append(specs, sp)
+		// the same universe plus an index whose child descriptors carry ref.name annotations (bounded depth)
+		opsX := append([]h.Op{}, ops...)
+		opsX = append(opsX, h.Op{Name: "put index X (children annotated with ref.name a / ghost) by digest", Do: func(w *h.World) []h.Violation {
+			if r := w.PutManifest(repo, fx.idxDig, types.MediaTypeOCI1ManifestList, fx.idx); r.Status == 201 {
+				mdl(w).Man[fx.idxDig] = true
+			}
+			return nil
+		}})
+		opsX = append(opsX, h.Op{Name: "delete index X by digest", Do: func(w *h.World) []h.Violation {
+			m := mdl(w)
+			r := w.Delete("/v2/" + repo + "/manifests/" + fx.idxDig)
+			if m.Man[fx.idxDig] && r.Status != 202 {
+				return []h.Violation{h.V("digest-delete", "digest-delete-refused", "delete of the present index X answered %s", r)}
+			}
+			delete(m.Man, fx.idxDig)
+			return nil
+		}})
+		spX := *sp
+		spX.Name = "c03-" + store + "-annotated-index"
+		spX.Ops = opsX
+		spX.MaxDepth = 5
+		if tier == "thorough" {
+			spX.MaxDepth = 6
+		}
+		specs = append(specs, &spX)
 		if store == "dir" {
 			// the same universe with the events that make the directory store read index.json again: a restart and the
 			// expiry of the repository cache entry. Virtual time enters the state, so the depth is bounded.
@@ -187,7 +222,8 @@ func c03Probe(w *h.World, repo string, fx *c03Fix, tags []string) []h.Violation 
 			if r.Status != 200 || string(r.Body) != string(fx.man[i]) {
 				add("manifest-stays-by-digest", "manifest-lost", "manifest M%d should be addressable by digest, got %s", i+1, r)
 			}
-		} else if r.Status != 404 {
+		} else if r.Status != 404 && !m.Man[fx.idxDig] {
+			// (while the index X that lists it is present the answer is left open, see DESIGN 8.3 item 14)
 			add("digest-delete-removes", "deleted-manifest-served", "manifest M%d was deleted but GET answered %s", i+1, r)
 		}
 	}
